@@ -58,6 +58,17 @@ Fixpoint tfind (T : table) (n : string) : option Z :=
   | (m, x) :: r => if String.eqb m n then Some x else tfind r n
   end.
 
+(* Python dict.update / merge_dicts over name-keyed tables: an existing key keeps its position and
+   takes the new value, a new key is appended (elf/structs.py _create_dyn, common/utils.py merge_dicts) *)
+Fixpoint table_set (T : table) (n : string) (v : Z) : table :=
+  match T with
+  | [] => [(n, v)]
+  | (m, x) :: r => if String.eqb m n then (m, v) :: r else (m, x) :: table_set r n v
+  end.
+
+Definition table_update (A B : table) : table :=
+  fold_left (fun d nv => table_set d (fst nv) (snd nv)) B A.
+
 Inductive enum_default : Type :=
 | DefRaise     (* no _default_: MappingError (a ConstructError, surfaced as ELFParseError by struct_parse) *)
 | DefPass.     (* _default_ = Pass: the unmapped object is returned as is *)
